@@ -1,8 +1,10 @@
 (** non-vacuity for C16: a concrete data set with three edges sharing one timestamp, a getter that
     meets [honours], arguments that meet [args_ok], and non-trivial pages / walks *)
-From Coq Require Import List NArith ZArith Bool.
+From Coq Require Import List NArith ZArith Bool Lia.
 From ApiFu Require Import Base.Sexp TimeConn.TimeModel TimeConn.TimeSpec TimeConn.TimeProofs
-  TimeConn.TimeErrModel TimeConn.TimeErrProofs.
+  TimeConn.TimeErrModel TimeConn.TimeErrProofs TimeConn.TimeCursorCodec TimeConn.TimeCursorCodecProofs
+  TimeConn.GoTimeModel TimeConn.GoTimeProofs TimeConn.DateTimeModel TimeConn.TimeCostProofs.
+From ApiFu Require Cost.CostModel.
 Import ListNotations.
 Open Scope Z_scope.
 
@@ -131,3 +133,73 @@ Example join_out_of_order :
   /\ join_sched [PVal (GSlice [(100, b_a)]); PErr 1; PErr 2] [2%nat; 0%nat] = JWait 1 [GSlice [(100, b_a)]]
   /\ join_sched [PVal (GSlice [(100, b_a)]); PVal GNil] [1%nat; 0%nat] = JDone [GSlice [(100, b_a)]; GNil].
 Proof. vm_compute. repeat split. Qed.
+
+(** ** Stage B: the strings that travel, time.Time, cost *)
+
+(** the cursor of edge (1577836800000000000, "a") is the string the real server emits for
+    2020-01-01T00:00:00Z / "a": gqROYW5v0xXlmjW5igAAoklkoWE *)
+Example cursor_string :
+  tb_encode (1577836800000000000, b_a)
+  = [103;113;82;79;89;87;53;118;48;120;88;108;109;106;87;53;105;103;65;65;111;107;108;107;111;87;69]%N
+  /\ tb_decode (tb_encode (1577836800000000000, b_a)) = DCur (1577836800000000000, b_a)
+  /\ wire_ok (1577836800000000000, b_a).
+Proof.
+  split; [vm_compute; reflexivity|]. split; [vm_compute; reflexivity|].
+  apply wire_okb_ok. vm_compute. reflexivity.
+Qed.
+
+(** hand-made documents: nil is the zero cursor, an array assigns the fields in order, a later
+    duplicate key wins, an unknown key is outside the model, a truncated integer is invalid *)
+Example cursor_documents :
+  mp_decode_tb [192]%N = DCur (0, [])
+  /\ mp_decode_tb [146; 100; 161; 98]%N = DCur (100, b_b)
+  /\ mp_decode_tb [131; 164;78;97;110;111; 1; 164;78;97;110;111; 100; 162;73;100; 161; 98]%N = DCur (100, b_b)
+  /\ mp_decode_tb [129; 161; 120; 1]%N = DOut
+  /\ mp_decode_tb [129; 164;78;97;110;111; 211; 0; 0]%N = DNil.
+Proof. vm_compute. repeat split. Qed.
+
+(** walking by the strings: the hypotheses of the string-level walk theorems are met by E20 *)
+Example walk_by_strings :
+  (forall e, In e E20 -> wire_ok e) /\
+  walk_fwd_wire (g_exact E20) 7 all_sync 2 None None None
+  = WDone [(100, b_a); (100, b_b); (100, b_c); (200, b_a); (200, b_b); (300, b_a)].
+Proof.
+  split; [|vm_compute; reflexivity].
+  intros e He.
+  repeat (destruct He as [<-|He]; [apply wire_okb_ok; vm_compute; reflexivity|]).
+  destruct He.
+Qed.
+
+(** DateTime strings: the zero time, a fraction of more than nine digits, the year -1 through a
+    zone offset; a one-digit hour is left to Go's lenient fallback parser (outside the model) *)
+Definition ascii_bytes (l : list N) : bytes := l.
+Example datetime_strings :
+  parse_rfc3339 [48;48;48;49;45;48;49;45;48;49;84;48;48;58;48;48;58;48;48;90]%N = PDTime zero_time
+  /\ parse_rfc3339 [50;48;50;48;45;48;49;45;48;49;84;48;48;58;48;48;58;48;48;46;49;50;51;52;53;54;55;56;57;49;90]%N
+     = PDTime 1577836800123456789
+  /\ parse_rfc3339 [48;48;48;48;45;48;49;45;48;49;84;48;48;58;48;48;58;48;48;43;50;51;58;53;57]%N
+     = PDTime (-62167305540000000000)
+  /\ parse_rfc3339 [50;48;50;48;45;48;49;45;48;49;84;48;58;48;48;58;48;48;90]%N = PDOut.
+Proof. vm_compute. repeat split. Qed.
+
+(** time.Time: a beforeTime of the year 9999 in zone -23:59 and an atOrAfterTime before Go's zero
+    time meet [opt_wf]; the time-level queries are the integer ones *)
+Definition t_far_to : gtime := {| gsec := 253402300799 + 86340 + unix_to_internal; gnsec := 999999999; gmono := None; gloc := -86340 |}.
+Definition t_far_from : gtime := {| gsec := -86340; gnsec := 0; gmono := None; gloc := 86340 |}.
+Example far_arguments :
+  g_wf t_far_to /\ g_wf t_far_from /\ inst t_far_from < zero_time /\ distant_future < inst t_far_to /\
+  map inst_query (range_queries_t (Some (9223372036854775807, b_a)) None (Some t_far_from) (Some t_far_to) 3)
+  = [mkq 9223372036854775807 9223372036854775807 0; mkq 9223372036854775808 (inst t_far_to - 1) 3].
+Proof.
+  split; [unfold g_wf, t_far_to, giga, unix_to_internal; cbn [gsec gnsec gmono]; repeat split; lia|].
+  split; [unfold g_wf, t_far_from, giga; cbn [gsec gnsec gmono]; repeat split; lia|].
+  split; [vm_compute; reflexivity|]. split; [vm_compute; reflexivity|].
+  vm_compute. reflexivity.
+Qed.
+
+(** cost: last:2 over E20 — resolver cost 1, edge multiplier 2, two edges returned *)
+Example cost_of_a_page :
+  let a := {| a_first := None; a_last := Some 2; a_after := CAbsent; a_before := CAbsent; a_from := None; a_to := None |} in
+  edges_multiplier a {| CostModel.k_user := tt; CostModel.k_max_edge := None |} = Some 2
+  /\ length (TimeRef E20 a) = 2%nat.
+Proof. vm_compute. split; reflexivity. Qed.
